@@ -11,6 +11,8 @@
 // Case format:
 //   case <id> kind=loop|elt|pool poller=epoll|poll pts=0|1 sched=<source> steps=<n> [n=<N> calls=<k>]
 //   P <acts>          kind=loop: code of the loop thread before loop(); kind=elt: the owner's program
+//   L <acts>          kind=loop: code of the loop thread after loop() returned, followed by another
+//                     call of loop() (one line per further call)
 //   T <acts>          one line per foreign thread
 //   S <id> <acts>     script of task / callback <id>
 //   H <h1> <h2> ...   kind=pool: hash codes
@@ -59,6 +61,7 @@ struct CaseDesc
   int pts, n, calls;
   sched::Config cfg;
   Prog prefix;
+  std::vector<Prog> later;
   std::vector<Prog> threads;
   std::map<int, Prog> scripts;
   std::vector<unsigned long> hashes;
@@ -279,8 +282,16 @@ static void runLoopCase(const CaseDesc& c)
     runActs(c.prefix);
     sched::log("enter");
     loop.loop();
-    g_loop_returned = 1;
+    ++g_loop_returned;
     sched::log("loop-returned");
+    for (size_t k = 0; k < c.later.size(); ++k)
+    {
+      runActs(c.later[k]);
+      sched::log("enter");
+      loop.loop();
+      ++g_loop_returned;
+      sched::log("loop-returned");
+    }
     for (size_t i = 0; i < hs.size(); ++i) sched::join(hs[i]);
     printFinal();
     ch.disableAll();
@@ -470,6 +481,7 @@ int main()
       continue;
     }
     if (w[0] == "P") c.prefix = parseActs(w, 1);
+    else if (w[0] == "L") c.later.push_back(parseActs(w, 1));
     else if (w[0] == "T") c.threads.push_back(parseActs(w, 1));
     else if (w[0] == "S" && w.size() >= 2) c.scripts[atoi(w[1].c_str())] = parseActs(w, 2);
     else if (w[0] == "H") for (size_t i = 1; i < w.size(); ++i) c.hashes.push_back(strtoul(w[i].c_str(), NULL, 10));
